@@ -245,7 +245,7 @@ class Spec:
     def key(self, S):
         sib_live = S.sib is not None and S.sib.store is S.g.store
         return (tuple(sorted(S.m)), tuple(sorted(S.sm)) if sib_live else None,
-                type(S.g.store).__name__, canon(vars(S.g.store)))
+                type(S.g.store).__name__, canon(vars(S.g.store)), canon(vars(S.g)))
 
     def model_key(self, S):
         return (tuple(sorted(S.m)), tuple(sorted(S.sm)))
